@@ -27,7 +27,7 @@ ASSUMPTIONS = [
     'writability is delivered by a scripted poller (BasePoller subclass) as one _write event per registered writer per round',
     'EAGAIN == EWOULDBLOCK on this platform',
 ]
-REQUIRED = ['endpoint_server', 'endpoint_client', 'endpoint_file', 'partial_send_requeued', 'accept_zero', 'eagain_injected', 'eintr_injected',
+REQUIRED = ['payload_written_after_the_buffer_had_drained_completely', 'endpoint_server', 'endpoint_client', 'endpoint_file', 'partial_send_requeued', 'accept_zero', 'eagain_injected', 'eintr_injected',
             'enobufs_injected', 'fatal_injected', 'close_while_buffered', 'close_after_drain', 'two_connections_interleaved', 'two_clients_on_one_channel', 'connection_on_descriptor_number_zero', 'file_open_for_reading_and_writing', 'thousands_of_payloads_queued_at_once', 'more_payloads_queued_than_the_configured_backlog', 'empty_payload',
             'write_after_close_request', 'server_wide_close', 'text_payload_multibyte', 'close_requested_by_peer_eof', 'client_reconnected_after_end', 'client_reconnected_after_unsent_backlog']
 REQUIRED_OBLIGATIONS = ['PREFIX', 'ALL_DELIVERED', 'CLOSE_WAITS_FOR_BUFFER', 'NO_SEND_AFTER_CLOSE', 'FATAL_SIGNALLED', 'CLOSE_HAPPENS']
@@ -361,6 +361,15 @@ def run_case(case):
                 marks.add('write_after_close_request')
             if not data:
                 marks.add('empty_payload')
+            if endpoint == 'file' and W['comp'].closed and not close_req[i] and not scripts[i].dead:
+                # nobody asked for a close and no write failed, yet the endpoint closed itself (e.g. on reaching the end of what there is
+                # to read): whatever is written from now on is lost without any error
+                counts['ALL_DELIVERED'] += 1
+                problems.append(('ALL_DELIVERED', {'connection': i, 'note': 'the endpoint closed itself although no close was requested and no write failed; '
+                                                   'the next payload can not reach the OS', 'before_write': n, 'mode': case.get('fmode', 'w'),
+                                                   'signals': W['signals'][-8:]}))
+                ok = False
+                break
             if scripts[i].closed or (endpoint == 'file' and W['comp'].closed):
                 continue  # writing to an endpoint that already closed is C12's subject
             W['write'](i, data)
@@ -371,7 +380,14 @@ def run_case(case):
                 written[i] += data
             if tee and not scripts[1].closed:
                 written[1] += data          # the write event reaches both clients of the channel
-            if case.get('pump_between', True) and n % 2 == 1:
+            if case.get('pump_between', True) == 'drain':
+                # the loop gets round to this endpoint again and again before the application writes the next payload: every payload is
+                # written to an endpoint whose buffer has drained completely (and which has been told about its read side, too)
+                for _ in range(6 + 2 * len(scripts[i].outcomes)):
+                    if not W['pump']():
+                        break
+                marks.add('payload_written_after_the_buffer_had_drained_completely')
+            elif case.get('pump_between', True) and n % 2 == 1:
                 W['pump']()
             ok = check_prefix('write %d' % n)
             if not ok:
@@ -565,7 +581,7 @@ def corpus():
     for fm in ('w+', 'a+', 'r+', 'a'):
         for script in ([], ['P', 'EAGAIN', 'P'], ['Z', 'P', 'EINTR']):
             for close_at in (None, 1, 2):
-                for pb in (True, False):
+                for pb in (True, False, 'drain'):
                     cs.append({'endpoint': 'file', 'fmode': fm, 'payloads': 'm', 'script': script, 'close_at': close_at, 'pump_between': pb})
     # more payloads queued at once than the endpoint's configured numbers (listen backlog 5000 by default, or a small one given)
     for endpoint in ('server', 'client', 'file'):
@@ -597,7 +613,7 @@ def gen_case(rng):
     endpoint = rng.choice(['server', 'client', 'file'])
     pset = rng.choice('semu' if endpoint == 'file' else 'sem')
     case = {'endpoint': endpoint, 'payloads': pset, 'script': script,
-            'close_at': rng.choice([None, 0, 1, 2, len(PAYLOAD_SETS[pset]) - 1]), 'pump_between': rng.random() < 0.7}
+            'close_at': rng.choice([None, 0, 1, 2, len(PAYLOAD_SETS[pset]) - 1]), 'pump_between': rng.choice([True, True, True, False, 'drain'])}
     if endpoint == 'file' and rng.random() < 0.5:
         case['fmode'] = rng.choice(['w+', 'a+', 'r+', 'a'])
     if endpoint != 'file' and rng.random() < 0.1:
